@@ -177,9 +177,21 @@ func (k Keeper) cleanupTimedOutBatches(ctx sdk.Context) {
 
 func (k Keeper) cleanupTimeOutBridgeCall(ctx sdk.Context) {
 	externalBlockHeight := k.GetLastObservedBlockHeight(ctx).ExternalBlockHeight
+	// a bridge call whose result has been observed is settled by that result once the
+	// pending claim is executed: it was run on the external chain and must not time out
+	resultObserved := make(map[uint64]bool)
+	k.IteratePendingExecuteClaim(ctx, func(claim types.ExternalClaim) bool {
+		if result, ok := claim.(*types.MsgBridgeCallResultClaim); ok {
+			resultObserved[result.Nonce] = true
+		}
+		return false
+	})
 	k.IterateOutgoingBridgeCalls(ctx, func(data *types.OutgoingBridgeCall) bool {
 		if data.Timeout > externalBlockHeight {
 			return true
+		}
+		if resultObserved[data.Nonce] {
+			return false
 		}
 		// 1. handler bridge call refund
 		k.HandleOutgoingBridgeCallRefund(ctx, data)
